@@ -5,6 +5,7 @@
 #include "QXmppDataFormBase.h"
 
 #include "QXmppDataForm.h"
+#include "QXmppUtils.h"
 
 #include "StringLiterals.h"
 
@@ -136,7 +137,7 @@ bool QXmppDataFormBase::fromDataForm(const QXmppDataForm &form, QXmppDataFormBas
 void QXmppDataFormBase::serializeDatetime(QXmppDataForm &form, const QString &name, const QDateTime &datetime, QXmppDataForm::Field::Type type)
 {
     if (datetime.isValid()) {
-        serializeValue(form, type, name, datetime.toUTC().toString(Qt::ISODate));
+        serializeValue(form, type, name, QXmppUtils::datetimeToString(datetime));
     }
 }
 
